@@ -66,7 +66,7 @@ DESTRUCTION = {
     ('utils:ObjectWriter.__exit__', 'REPLACE', 'sandbox->loose'): 'publish over a corrupt copy (checksum mismatch verified, C09.R1)',
     ('utils:ObjectWriter.__exit__', 'RENAME', 'sandbox->duplicates'): 'Windows: keep a duplicate instead of overwriting an open file (through _store_duplicate_copy)',
 }
-DESTRUCTIVE = ('SUBPROCESS', 'UNLINK', 'RENAME', 'REPLACE', 'LINK', 'RMTREE', 'RMDIR', 'DB_DELETE', 'DB_UPDATE', 'H_TRUNCATE', 'TRUNCATE_PATH', 'MOVE', 'COPY',
+DESTRUCTIVE = ('DB_ROLLBACK', 'SUBPROCESS', 'UNLINK', 'RENAME', 'REPLACE', 'LINK', 'RMTREE', 'RMDIR', 'DB_DELETE', 'DB_UPDATE', 'H_TRUNCATE', 'TRUNCATE_PATH', 'MOVE', 'COPY',
                'WRITE_PATH', 'TOUCH', 'FS_OTHER', 'DB_OTHER')
 
 
@@ -753,6 +753,10 @@ def run(ctx, host=None):
                 if f.module.name.endswith('backup_utils'):
                     # backup works on the destination through rsync/ssh; its local effects are checked by C15
                     continue
+                if e[0] == 'DB_ROLLBACK':
+                    chk.bad(R4, f.qualname, f'rollback: {norm(n)[:80]}', 'a rollback of the operation session discards index rows that were inserted but are not committed yet (the documented do_commit=False '
+                            'bulk mode relies on them staying pending until the caller commits)', where=f'{f.module.relpath}:{n.lineno}')
+                    continue
                 if e[0] == 'SUBPROCESS':
                     chk.bad(R4, f.qualname, f'external command: {norm(n)[:100]}', 'an external command is run from the object-store code (outside backup_utils): what it does to the container cannot be classified, '
                             'so it counts as an untabled destructive site', where=f'{f.module.relpath}:{n.lineno}')
@@ -858,6 +862,8 @@ def run(ctx, host=None):
         chk.ok(R5, isi.qualname, 'return True', detail='only as the last statement, after reading the configuration and testing the sub-folders', nontrivial=False)
     else:
         chk.bad(R5, isi.qualname, 'return True', 'is_initialised can answer True without having read the configuration and tested the sub-folders (or never does)', where=f'{isi.module.relpath}:{isi.lineno}')
+    from .common import no_memoised_configuration
+    no_memoised_configuration(ctx, chk, R5, S)
     # cache reset completeness
     init = cont.methods.get('__init__')
     chk.require(init is not None, 'Container.__init__ not found')
@@ -987,6 +993,11 @@ def run(ctx, host=None):
         chk.ok(R6, lo.qualname, norm(adds[0]), detail='re-adds the object read through the public reader with the loose writer and compares the resulting key with the requested one')
     else:
         chk.bad(R6, lo.qualname, 'loosen_object', 'loosen_object does not copy the object through the public reader and the loose writer with a key comparison', where=f'{lo.module.relpath}:{lo.lineno}')
+
+    # ================================================================ R7 (one session object per operation)
+    R7 = chk.rule('C02.R7', 'no operation keeps using a session local after the cached operation session was reset (e.g. by a helper it calls for a progress total)', 1)
+    from .common import session_stability
+    session_stability(ctx, chk, R7)
 
     # rules of other properties that are necessary conditions of this one too: the views equal the model only if the round trip (C01), the index (C03), the streams (C07), deduplication (C09), compression (C10), deletion/repack (C11), import (C14) and bulk lookups (C16) are right
     if host is None:
